@@ -20,6 +20,9 @@ CLAUSES = {
     "direct:delivery": "qos01",              # a callback is set but the message just received was not passed to it
     "direct:ackheld": "no_ack_on_error",     # an acknowledgement left the client while the callback was still running
     "direct:resend": "pubrec_always",
+    # the option sweep (go/cmd/client/cfgsweep.go)
+    "direct:config": "config_meaning",
+    "direct:readlimit": "no_ack_on_error",   # a packet over ReadLimit is refused: nothing delivered, nothing acknowledged, connection closed
     "pubrec_always": "pubrec_always",
     "no_ack_on_error": "no_ack_on_error",
     "error_closes": "no_ack_on_error",       # second half of the clause: ... and the connection is closed
